@@ -11,7 +11,7 @@
 (*  Al(ks)           -> [min, max]   legal values of %al for a `...` call   *)
 (*  Results(ts)      -> locations of the declared results                   *)
 (*  VaStart / VaArg  -> the va_list automaton of 3.5.7                      *)
-(*  CalleeSaved, MxcsrControlMask, Preserved(..)                            *)
+(*  CalleeSaved, MxcsrControl, Preserved(before, after, nres87)             *)
 (*                                                                          *)
 (* An argument kind is a tagged record [t |-> type name, n |-> byte size]   *)
 (* (n = 0 for scalars).  Block kinds (MIR.md: "block data with given case", *)
@@ -159,12 +159,18 @@ VaAll(va, ks) == IF ks = <<>> THEN <<>>
 TailLegal(k) == k.t \in {"i64", "d", "ld"} \cup BlkTypes
 
 (* --------------------------------------------------- callee-preserved state *)
-CalleeSaved == {"rbx", "rbp", "r12", "r13", "r14", "r15"}      \* plus rsp
-MxcsrControlMask == 65472         \* 0xFFC0: bits 6..15 (DAZ, exception masks, RC, FTZ) are callee-saved;
-                                  \* bits 0..5 (status) are not
+CalleeSavedSeq == <<"rbx", "rbp", "r12", "r13", "r14", "r15">>      \* psABI figure 3.4 ("preserved across function calls")
+CalleeSaved == {CalleeSavedSeq[k] : k \in 1..6}                    \* plus rsp
+MxcsrControl(v) == v \div 64      \* bits 6..15 of MXCSR (DAZ, exception masks, RC, FTZ) are callee-saved; bits 0..5 (status) are not
 X87CWPreserved == TRUE            \* the x87 control word is callee-saved
 DFClear == TRUE                   \* DF = 0 on entry and on return
-X87EmptyOnEntry == TRUE           \* and on return except for st0/st1 results
+X87EmptyOnEntry == TRUE           \* the x87 register stack is empty on entry, and on return except for st0/st1 results
+(* machine state m = [cs (values of CalleeSavedSeq), rsp, mxcsr, cw, df, x87n]: what a callee must hand back, given *)
+(* the number nres87 of its long double results                                                                  *)
+Preserved(before, after, nres87) ==
+  /\ after.cs = before.cs /\ after.rsp = before.rsp
+  /\ MxcsrControl(after.mxcsr) = MxcsrControl(before.mxcsr) /\ after.cw = before.cw
+  /\ after.df = 0 /\ after.x87n = nres87
 
 (* ------------------------------------------------------------- case record *)
 ArgRec(k, locs) == [t |-> k.t, n |-> k.n, bits |-> Bits(k.t), sg |-> Signed(k.t), bytes |-> Size(k), locs |-> locs]
